@@ -574,6 +574,7 @@ struct Minimiser
   Profile const* prof;
   std::string scratch;
   std::string want_tag;
+  std::string want_key;
   int runs = 0;
   int budget = 300;
 
@@ -585,7 +586,28 @@ struct Minimiser
     }
     ++runs;
     ChildResult cr = run_in_child(p, prof, scratch, 60);
-    return cr.v.kind == Verdict::VIOLATION && cr.v.tag == want_tag;
+    if (cr.v.kind != Verdict::VIOLATION || cr.v.tag != want_tag)
+    {
+      return false;
+    }
+    if (!want_key.empty())
+    {
+      std::string s = cr.v.tag;
+      for (auto const& f : cr.v.fields)
+      {
+        std::string val = f.second;
+        for (auto& ch : val)
+        {
+          if (ch == ' ' || ch == '|' || ch == '\n')
+          {
+            ch = '_';
+          }
+        }
+        s += "|" + f.first + "=" + val.substr(0, 80);
+      }
+      return s == want_key;
+    }
+    return true;
   }
 
   static bool structural(Op const& op)
@@ -856,6 +878,19 @@ static int worker_main(Args const& a, Profile const* prof, int w, int wfd, std::
         o << " " << k << "=" << cr.faults[k];
       }
     }
+    o << " |";
+    for (auto const& kv : cr.v.fields)
+    {
+      std::string val = kv.second;
+      for (auto& ch : val)
+      {
+        if (ch == ' ' || ch == '|' || ch == '\n')
+        {
+          ch = '_';
+        }
+      }
+      o << " " << kv.first << "=" << val.substr(0, 80);
+    }
     o << "\n";
     fputs(o.str().c_str(), out);
     fflush(out);
@@ -996,9 +1031,23 @@ static int batch(Args const& a, Profile const* prof)
           }
           break;
         case Verdict::VIOLATION:
+        {
           ++g.viol;
-          g.viol_seeds[tag].push_back(rs);
+          // violation class = tag + characterising fields (reported and matched against known findings separately)
+          std::string key = tag;
+          size_t b3 = line.rfind('|');
+          if (b3 != std::string::npos)
+          {
+            std::istringstream fs3(line.substr(b3 + 1));
+            std::string kv3;
+            while (fs3 >> kv3)
+            {
+              key += "|" + kv3;
+            }
+          }
+          g.viol_seeds[key].push_back(rs);
           break;
+        }
         case Verdict::INCONCLUSIVE:
           ++g.inconc;
           g.inconc_reasons[tag]++;
@@ -1012,6 +1061,7 @@ static int batch(Args const& a, Profile const* prof)
         std::getline(ls, rest);
         size_t bar1 = rest.find('|');
         size_t bar2 = rest.find('|', bar1 + 1);
+        size_t bar3 = rest.find('|', bar2 + 1);
         if (bar1 != std::string::npos && bar2 != std::string::npos)
         {
           std::istringstream ps(rest.substr(bar1 + 1, bar2 - bar1 - 1));
@@ -1024,7 +1074,7 @@ static int batch(Args const& a, Profile const* prof)
               g.probes[kv.substr(0, eq)] += strtoull(kv.c_str() + eq + 1, nullptr, 10);
             }
           }
-          std::istringstream fs(rest.substr(bar2 + 1));
+          std::istringstream fs(rest.substr(bar2 + 1, bar3 == std::string::npos ? std::string::npos : bar3 - bar2 - 1));
           while (fs >> kv)
           {
             size_t eq = kv.find('=');
@@ -1067,13 +1117,31 @@ static int batch(Args const& a, Profile const* prof)
   {
     return 2;
   }
+  auto sig_of = [](Verdict const& v) -> std::string
+  {
+    std::string s = v.tag;
+    for (auto const& f : v.fields)
+    {
+      std::string val = f.second;
+      for (auto& ch : val)
+      {
+        if (ch == ' ' || ch == '|' || ch == '\n')
+        {
+          ch = '_';
+        }
+      }
+      s += "|" + f.first + "=" + val.substr(0, 80);
+    }
+    return s;
+  };
   for (auto const& kv : g.viol_seeds)
   {
-    std::string const& tag = kv.first;
+    std::string const& key = kv.first;
+    std::string const tag = key.substr(0, key.find('|'));
     uint64_t rs = kv.second.front();
     Plan plan = prof->gen(rs, a.tier);
     ChildResult first = run_in_child(plan, prof, scratch);
-    if (first.v.kind != Verdict::VIOLATION || first.v.tag != tag)
+    if (first.v.kind != Verdict::VIOLATION || sig_of(first.v) != key)
     {
       printf("HARNESS-ERROR: violation %s of seed %lu did not reproduce on re-execution (got kind=%d tag=%s)\n", tag.c_str(),
              rs, static_cast<int>(first.v.kind), first.v.tag.c_str());
@@ -1084,12 +1152,13 @@ static int batch(Args const& a, Profile const* prof)
     if (!a.no_min)
     {
       Minimiser mz{prof, scratch, tag};
+      mz.want_key = key;
       minp = mz.run(plan);
     }
     // gate: two more executions in fresh processes, same class, identical hashes
     ChildResult g1 = run_in_child(minp, prof, scratch);
     ChildResult g2 = run_in_child(minp, prof, scratch);
-    if (g1.v.kind != Verdict::VIOLATION || g2.v.kind != Verdict::VIOLATION || g1.v.tag != tag || g2.v.tag != tag ||
+    if (g1.v.kind != Verdict::VIOLATION || g2.v.kind != Verdict::VIOLATION || sig_of(g1.v) != key || sig_of(g2.v) != key ||
         g1.hash != g2.hash)
     {
       printf("HARNESS-ERROR: minimised plan for %s (seed %lu) does not replay deterministically\n", tag.c_str(), rs);
@@ -1097,7 +1166,7 @@ static int batch(Args const& a, Profile const* prof)
       continue;
     }
     KnownFinding const* kf = match_known(known, prof->id, g1.v);
-    std::string safe_tag = tag;
+    std::string safe_tag = key;
     for (auto& c : safe_tag)
     {
       if (!isalnum(static_cast<unsigned char>(c)) && c != '_' && c != '-')
